@@ -72,7 +72,7 @@ var checks = []Check{
 	{
 		ID: "C12", Pkg: "checks/c12", Instr: coreInstr,
 		QuickRuns: 200000, ThoroughRuns: 20000000, QuickBudgetS: 45, ThoroughBudgetS: 900, ShrinkS: 30,
-		Rule: "one run = 2-5 replicas of one CRDT type (GCounter, AWORSet or LWWSet), 4-43 drawn actions: local update (increment 1-5; add/remove of one of 1-4 elements, clock advanced 1-5 ms first so LWW timestamps are distinct), send full state (gob-encoded) to a peer, deliver any in-flight state (reordering), deliver and keep (duplication), drop; after every update and merge the replica's Read is compared with a reference model evaluated on the set of updates it knows; at the end replicas with equal knowledge must read equally, and commutativity, associativity, idempotence, inflation, gob round-trip and merge-equals-union are judged observationally on up to 24 reached states; non-trivial = at least 2 updates and a reorder/duplicate or a law check; distinct = distinct action-sequence digests",
+		Rule: "one run = 2-5 replicas of one CRDT type (GCounter, AWORSet or LWWSet), 4-43 drawn actions: local update (increment 0-5; add/remove of one of 1-4 elements, clock advanced 1-5 ms first so LWW timestamps are distinct), send full state (gob-encoded) to a peer, deliver any in-flight state (reordering), deliver and keep (duplication), drop; after every update and merge the replica's Read is compared with a reference model evaluated on the set of updates it knows; at the end replicas with equal knowledge must read equally, and commutativity, associativity, idempotence, inflation, gob round-trip and merge-equals-union are judged observationally on up to 24 reached states; non-trivial = at least 2 updates and a reorder/duplicate or a law check; distinct = distinct action-sequence digests",
 		Real:        []string{"distsys/resources GCounter, AWORSet, LWWSet (Init/Read/Write/Merge/GobEncode/GobDecode) — real", "encoding/gob — real", "distsys/tla values — real"},
 		Stub:        []string{"transport between replicas: harness message pool (reorder, duplicate, drop, delay); the CRDT *resource* (crdt.go broadcast/merge goroutines) is exercised by C13, not here", "time.Now: synctest fake clock"},
 		Assumptions: []string{"LWW timestamps are distinct in every judged run (ties are outside the statement)", "state equality is judged observationally (Read now and after identical continuations), so representation differences without observable effect are not reported"},
@@ -104,6 +104,15 @@ var checks = []Check{
 		Stub:        stubU,
 		Assumptions: []string{"porcupine time-outs (20 s) are counted as inconclusive, never reported", "Persistent wrapping of shared variables is exercised by C01"},
 		MustProbe:   []string{"lock_timeout", "second_lock_in_section", "attempt_aborted", "three_or_more_sharers"}, MinRunsForProbes: 2000,
+	},
+	{
+		ID: "C13", Pkg: "checks/c13", Instr: coreInstr,
+		QuickRuns: 20000, ThoroughRuns: 1000000, QuickBudgetS: 60, ThoroughBudgetS: 1200, ShrinkS: 45,
+		Rule: "one run = 2-4 nodes each with the real NewCRDT resource (GCounter value, broadcaster, merger, net/rpc receiver) over the simulated network, broadcast interval 5 or 50 ms, send/dial time-out 0.1 or 2 s, peers coming up late; each node runs 1-4 sections: read, or write an increment that is a distinct power of two per ATTEMPT, hold the section open for 0-3 intervals (ticks and incoming merges land inside it), then commit or abort 1-2 times; afterwards every node keeps reading once per interval; oracles on every read: no bit of an aborted attempt, no bit of a section still in flight at another node, no bit seen in an earlier committed read missing (received state is never lost); after updates stop every node must read exactly the union of committed bits within 20 intervals + 2 send time-outs + 1 s; non-trivial = at least one committed update and a pre-emption; distinct = distinct interleaving digests",
+		Real:        realU,
+		Stub:        stubU,
+		Assumptions: []string{"GCounter with power-of-two increments stands for any CRDT value (attribution of updates); AWORSet/LWWSet values are covered at value level by C12", "no connection resets or partitions are injected here (the property speaks of connected peers)"},
+		MustProbe:   []string{"write_section_aborted", "section_held_open_after_write"}, MinRunsForProbes: 1000,
 	},
 }
 
